@@ -39,14 +39,26 @@ func c11BoundaryOpen(m *vh.StoreModel, id store.NodeID, peers []string) bool {
 	return false
 }
 
+// c11RefreshUnit: the same walk over a small alphabet (one reporter, one peer, two ticks that sum
+// past the window only together) so that quick-tier depth reaches histories in which a tracked
+// timestamp has to be *refreshed* by a later report: report, peer checks in again, report again,
+// time passes, peer omitted (6 events and more).
+func c11RefreshUnit(driver string, depth int) vh.Unit {
+	return c11StoreUnitEvs(fmt.Sprintf("store-bfs-refresh/%s/d%d", driver, depth), driver,
+		[]string{"upd N P1", "upd N -", "upd P1 -", "upd N P1,P2", "tick 59s", "tick 61s"}, depth, 0, 1)
+}
+
 func c11StoreUnit(driver string, depth, shard, nshards int) vh.Unit {
-	name := fmt.Sprintf("store-bfs/%s/d%d/%d", driver, depth, shard)
 	evs := []string{
 		"upd N -", "upd N P1", "upd N P2", "upd N P1,P2", "upd N P1,X", "upd N X", "upd N P1,P1", "upd N P2,X,P1",
 		"upd P1 -", "upd P2 -", "set P1 hg", "upd P1 N",
 		"upd N N", "upd N N,P1", // a node that lists itself
 	}
 	evs = append(evs, c11Ticks...)
+	return c11StoreUnitEvs(fmt.Sprintf("store-bfs/%s/d%d/%d", driver, depth, shard), driver, evs, depth, shard, nshards)
+}
+
+func c11StoreUnitEvs(name, driver string, evs []string, depth, shard, nshards int) vh.Unit {
 	return vh.Unit{Name: name, Run: func(u *vh.U) {
 		spec := vh.BFSSpec{
 			Name: name, MaxDepth: depth, Shard: shard, NShards: nshards,
@@ -452,6 +464,13 @@ func init() {
 				}
 				for s := 0; s < 4; s++ {
 					us = append(us, c11PoolUnit(vh.Badger, 3, s, 4))
+				}
+			}
+			for _, d := range vh.Drivers {
+				if tier == "thorough" {
+					us = append(us, c11RefreshUnit(d, 9))
+				} else {
+					us = append(us, c11RefreshUnit(d, 7))
 				}
 			}
 			for _, d := range vh.Drivers {
